@@ -843,6 +843,10 @@ package ro
 //@ func Never$1$1
 //@   note the waiting goroutine of Never: no value ever; one terminal when the subscription context ends, nothing when the teardown stops it
 //@   props C04 C01 C14 C09
+//@   binds subscriberCtx done destination
+//@   calls CompleteWithContext Done Err ErrorWithContext
+//@   params -
+//@   scope destination done subscriberCtx
 //@   track destination.* chselect chpoll chrecv.ANY
 //@   ensures [no-value-and-at-most-one-terminal|C04,C01] count(destination.NextWithContext) == 0 && count(destination.ErrorWithContext) + count(destination.CompleteWithContext) <= 1
 //@   ensures [waits-in-one-select-over-the-context-and-the-teardown|C14] count(chselect) == 1 && count(chpoll) == 0 && count(chrecv.ANY) == 0 && watches(chselect, done)
@@ -1060,7 +1064,7 @@ package ro
 //@ func zipInnerSubscription$3
 //@   note the completion callback of one zipped source
 //@   props C05 C09
-//@   binds ctx mu values muEmit destination subscriptions
+//@   binds ctx mu completed values muEmit destination subscriptions
 //@   calls CompleteWithContext Lock Unlock Unsubscribe
 //@   params ctx
 //@   scope completed ctx destination err mu muEmit obs onUpdate subscriberCtx subscriptions v values varargs
